@@ -27,6 +27,40 @@ type peer struct {
 	autoAck bool
 	hold    int // number of received QoS>0 publishes still to leave unacknowledged (then autoAck resumes)
 	sendMu  sync.Mutex
+	state   *subState // shared by all connections of one subscriber: which messages it has acknowledged
+}
+
+// subState is the subscriber's own view across reconnects: a message counts as handled only
+// once the subscriber has acknowledged it (PUBACK sent, or PUBCOMP sent after PUBREL).
+type subState struct {
+	mu      sync.Mutex
+	unacked map[packet.ID]int
+	acked   map[int]bool
+}
+
+func newSubState() *subState { return &subState{unacked: map[packet.ID]int{}, acked: map[int]bool{}} }
+
+func (st *subState) sawPublish(p *packet.Publish) {
+	if st == nil || p.Message.QOS == 0 {
+		return
+	}
+	if _, _, n, ok := parsePayload(p.Message.Payload); ok {
+		st.mu.Lock()
+		st.unacked[p.ID] = n
+		st.mu.Unlock()
+	}
+}
+
+func (st *subState) ackedID(id packet.ID) {
+	if st == nil {
+		return
+	}
+	st.mu.Lock()
+	if n, ok := st.unacked[id]; ok {
+		st.acked[n] = true
+		delete(st.unacked, id)
+	}
+	st.mu.Unlock()
 }
 
 func dialPeer(name, port string, autoAck bool) (*peer, error) {
@@ -51,6 +85,7 @@ func (p *peer) reader() {
 		ack := p.autoAck
 		if pub, ok := pkt.(*packet.Publish); ok {
 			p.got = append(p.got, pub)
+			p.state.sawPublish(pub)
 			if pub.Message.QOS > 0 && p.hold > 0 {
 				p.hold--
 				ack = false
@@ -61,12 +96,16 @@ func (p *peer) reader() {
 			switch v := pkt.(type) {
 			case *packet.Publish:
 				if v.Message.QOS == 1 {
-					p.send(&packet.Puback{ID: v.ID})
+					if p.send(&packet.Puback{ID: v.ID}) == nil {
+						p.state.ackedID(v.ID)
+					}
 				} else if v.Message.QOS == 2 {
 					p.send(&packet.Pubrec{ID: v.ID})
 				}
 			case *packet.Pubrel:
-				p.send(&packet.Pubcomp{ID: v.ID})
+				if p.send(&packet.Pubcomp{ID: v.ID}) == nil {
+					p.state.ackedID(v.ID)
+				}
 			case *packet.Pubrec:
 				p.send(&packet.Pubrel{ID: v.ID})
 			}
